@@ -143,8 +143,8 @@ pub fn execute_liquid_stake(
 
     // a native user address minus its prefix is 39 chars long
     if mint_to.is_none()
-        && info.sender.as_str().len() - config.protocol_chain_config.account_address_prefix.len()
-            != 39
+        && info.sender.as_str().len()
+            != config.protocol_chain_config.account_address_prefix.len() + 39
     {
         // If we receive a mint to from a non-native address, return an error
         // to force the specification of a mint to address
